@@ -280,6 +280,10 @@ RULES = {
   {'id': 'rcu_qs_active_attempts', 'file': 'src/urcu.c', 'kind': 'regex', 'pattern': r'^#define RCU_QS_ACTIVE_ATTEMPTS 100\s*$',
    'repl': '#define RCU_QS_ACTIVE_ATTEMPTS 2', 'count': 1},
  ],
+ 'qs_attempts_small_bp': [
+  {'id': 'rcu_qs_active_attempts_bp', 'file': 'src/urcu-bp.c', 'kind': 'regex', 'pattern': r'^#define RCU_QS_ACTIVE_ATTEMPTS 100\s*$',
+   'repl': '#define RCU_QS_ACTIVE_ATTEMPTS 2', 'count': 1},
+ ],
  'qs_attempts_small_qsbr': [
   {'id': 'rcu_qs_active_attempts_qsbr', 'file': 'src/urcu-qsbr.c', 'kind': 'regex', 'pattern': r'^#define RCU_QS_ACTIVE_ATTEMPTS 100\s*$',
    'repl': '#define RCU_QS_ACTIVE_ATTEMPTS 2', 'count': 1},
